@@ -95,7 +95,7 @@ def run(ctx):
     mc = tlc.run('MCPxssh', 'MCPxssh.cfg', ctx.work, workers=8, timeout=900, outname='mcpx.out')
     if not mc['ok']:
         raise tlc.TLCError('Pxssh (deviations off): %s, see %s' % (mc['violated'] or 'TLC failed', mc['out']))
-    asis = tlc.run('MCPxssh', 'MCPxssh_asis.cfg', ctx.work, workers=1, timeout=900, outname='mcpx_asis.out')
+    asis = tlc.run('MCPxssh', 'MCPxssh_asis.cfg', ctx.work, workers=1, timeout=900, outname='mcpx_asis.out', only='TrueOnlyAtPrompt')
     if asis['violated'] != 'TrueOnlyAtPrompt':
         raise tlc.TLCError('Pxssh as-is should violate TrueOnlyAtPrompt (recorded finding), got %s' % asis['violated'])
     ctx.note('TLC Pxssh: %d distinct states; PasswordOnlyWhenAsked / PasswordAtMostOnce / YesOnlyToHostKey / TrueOnlyAtPrompt / '
